@@ -678,3 +678,276 @@ Proof.
   destruct tu as [t u]. cbn [snd]. intros H. unfold rec_tex. cbn [fst snd]. rewrite !app_length, rec_notex_length.
   destruct u as [|u0 [|u1 [|u2 [|u3 [|u4 [|u5 [|]]]]]]]; try discriminate. cbn [flat_map]. rewrite !app_length, !enc_word_length. reflexivity.
 Qed.
+
+(* ================= mesh level: point clouds ================= *)
+(* the one step not proved in general: ply.ReadMesh builds, on the written property list, exactly the readers
+   laid out on the groups (decidable for any concrete table; evaluated per case by Check/C04.v) *)
+Definition readers_ok (bin : bool) (gs : list rgroup) : Prop :=
+  build_readers bin default_groups true (vertex_props gs) = Ok (layout bin gs 0).
+
+Lemma all_scalar_props gs : all_scalar (vertex_props gs) = true.
+Proof.
+  unfold vertex_props. induction gs as [|g gs IH]; [reflexivity|]. cbn [flat_map]. unfold group_props.
+  induction (rg_names g) as [|x l IHl]; [exact IH|exact IHl].
+Qed.
+
+Theorem read_mesh_pointcloud_bin f gs m : f <> ASCII -> w_topo m = TPoint ->
+  Forall (group_good (w_n m)) gs -> readers_ok true gs ->
+  read_mesh {| pf_header := header_lines f (header_elems gs m);
+               pf_body := BodyBin (flat_map (fun i => flat_map (fun g => genc (enc_of f) g i) gs) (seq 0 (w_n m))) |}
+  = Ok {| m_topo := TPoint; m_idx := iota (w_n m);
+          m_attrs := update_mesh (layout true gs 0) 0 (map (vrow gs) (seq 0 (w_n m))) [] |}.
+Proof.
+  intros Hf Ht Hg Hr. unfold read_mesh. cbn [pf_header pf_body].
+  rewrite parse_header_written by apply header_elems_ok. cbn [rbind].
+  unfold read_body. cbn [h_elems h_fmt]. unfold header_elems. rewrite Ht.
+  cbn [find_last_elem e_name]. change (seqb "vertex" "vertex") with true. change (seqb "vertex" "face") with false. cbv iota.
+  cbn [of_opt rbind e_props e_count]. rewrite all_scalar_props. cbn [negb].
+  replace (Z.of_nat (w_n m) <? 0)%Z with false by lia. cbv iota. rewrite Nat2Z.id.
+  pose proof (read_vertices_bin_written (enc_of f) (w_n m) gs (w_n m) [] Hg (le_n _)) as R.
+  rewrite Nat.sub_diag, app_nil_r, <- record_size_props in R.
+  destruct f; [congruence| |]; cbn [enc_of] in R |- *; rewrite Hr; cbn [rbind]; rewrite R; cbn [rbind]; reflexivity.
+Qed.
+
+Theorem read_mesh_pointcloud_ascii gs m : w_topo m = TPoint ->
+  Forall (group_good (w_n m)) gs -> forallb ascii_ok gs = true -> vertex_props gs <> [] -> readers_ok false gs ->
+  read_mesh {| pf_header := header_lines ASCII (header_elems gs m);
+               pf_body := BodyAscii (map (fun i => flat_map (fun g => gtoks g i) gs) (seq 0 (w_n m))) |}
+  = Ok {| m_topo := TPoint; m_idx := iota (w_n m);
+          m_attrs := update_mesh (layout false gs 0) 0 (map (vrow gs) (seq 0 (w_n m))) [] |}.
+Proof.
+  intros Ht Hg Ha Hne Hr. unfold read_mesh. cbn [pf_header pf_body].
+  rewrite parse_header_written by apply header_elems_ok. cbn [rbind].
+  unfold read_body. cbn [h_elems h_fmt]. unfold header_elems. rewrite Ht.
+  cbn [find_last_elem e_name]. change (seqb "vertex" "vertex") with true. change (seqb "vertex" "face") with false. cbv iota.
+  cbn [of_opt rbind e_props e_count]. rewrite all_scalar_props. cbn [negb].
+  replace (Z.of_nat (w_n m) <? 0)%Z with false by lia. cbv iota. rewrite Nat2Z.id.
+  pose proof (read_vertices_ascii_written (w_n m) gs (w_n m) [] Hg Ha Hne (le_n _)) as R.
+  rewrite Nat.sub_diag, app_nil_r in R.
+  rewrite Hr; cbn [rbind]; rewrite R; cbn [rbind]; reflexivity.
+Qed.
+
+(* ================= mesh level: triangle meshes ================= *)
+Definition mesh_of (tp : topo) (idx : list Z) (uvs : list (list N)) (attrs : list attr) : result mesh :=
+  if negb (Nat.eqb (List.length uvs) 0) && Nat.eqb (List.length uvs) (List.length idx) then
+    dor ua <- unweld_attrs attrs idx;
+    Ok {| m_topo := tp; m_idx := iota (List.length idx); m_attrs := set_attr 2 "TexCoord" uvs ua |}
+  else Ok {| m_topo := tp; m_idx := idx; m_attrs := attrs |}.
+
+Lemma tri_z_flat l : flat_map tri_z l = zidx (flat_map (fun '(a, b, c) => [a; b; c]) l).
+Proof.
+  unfold zidx. induction l as [|[[a b] c] l IH]; [reflexivity|].
+  cbn [flat_map tri_z app map]. rewrite IH. reflexivity.
+Qed.
+
+Lemma shape0 : shape fstate0.
+Proof. split; reflexivity. Qed.
+
+Theorem read_mesh_triangles_bin f gs m : f <> ASCII -> w_topo m = TTriangle -> has_tex m = false ->
+  (List.length (w_idx m) mod 3 = 0)%nat -> Forall tri_ok (tris (w_idx m)) ->
+  Forall (group_good (w_n m)) gs -> readers_ok true gs ->
+  read_mesh {| pf_header := header_lines f (header_elems gs m);
+               pf_body := BodyBin (flat_map (fun i => flat_map (fun g => genc (enc_of f) g i) gs) (seq 0 (w_n m))
+                                   ++ flat_map (rec_notex (enc_of f)) (tris (w_idx m))) |}
+  = Ok {| m_topo := TTriangle; m_idx := zidx (w_idx m);
+          m_attrs := update_mesh (layout true gs 0) 0 (map (vrow gs) (seq 0 (w_n m))) [] |}.
+Proof.
+  intros Hf Ht Hx Hm Hi Hg Hr. unfold read_mesh. cbn [pf_header pf_body].
+  rewrite parse_header_written by apply header_elems_ok. cbn [rbind].
+  unfold read_body. cbn [h_elems h_fmt]. unfold header_elems. rewrite Ht.
+  cbn [find_last_elem e_name]. change (seqb "vertex" "vertex") with true. change (seqb "vertex" "face") with false.
+  change (seqb "face" "vertex") with false. change (seqb "face" "face") with true. cbv iota.
+  cbn [of_opt rbind e_props e_count]. rewrite all_scalar_props. cbn [negb].
+  replace (Z.of_nat (w_n m) <? 0)%Z with false by lia. cbv iota. rewrite !Nat2Z.id.
+  pose proof (read_vertices_bin_written (enc_of f) (w_n m) gs (w_n m) (flat_map (rec_notex (enc_of f)) (tris (w_idx m))) Hg (le_n _)) as R.
+  rewrite Nat.sub_diag, <- record_size_props in R.
+  destruct (tris_spec (List.length (w_idx m)) (w_idx m) (le_n _) Hm) as [Ef El].
+  assert (Ez : flat_map tri_z (tris (w_idx m)) = zidx (w_idx m)) by (rewrite tri_z_flat, Ef; reflexivity).
+  unfold face_setup, face_props. rewrite Hx. cbn [e_props list_props rbind last_index].
+  change (is_indices (PList UChar Int "vertex_indices")) with true.
+  change (is_texcoord (PList UChar Int "vertex_indices")) with false. cbv iota. cbn [of_opt rbind].
+  unfold nprims. rewrite Ht, <- El.
+  pose proof (faces_bin_notex (enc_of f) (tris (w_idx m)) [] fstate0 Hi shape0) as F. rewrite app_nil_r in F.
+  destruct f; [congruence| |]; cbn [enc_of] in R, F |- *; rewrite Hr; cbn [rbind]; rewrite R; cbn [rbind];
+    rewrite F; cbn [rbind List.length Nat.eqb negb andb]; rewrite Ez; reflexivity.
+Qed.
+
+Lemma flat_map_fst {A B C} (f : A -> list C) (l : list (A * B)) : flat_map (fun tu => f (fst tu)) l = flat_map f (map fst l).
+Proof. induction l as [|x l IH]; [reflexivity|]. cbn [flat_map map]. rewrite IH. reflexivity. Qed.
+
+(* [fts]: every face of the mesh with its six texture-coordinate words (what [face_uvs] gathers through the index) *)
+Theorem read_mesh_triangles_tex_bin f gs m fts : f <> ASCII -> w_topo m = TTriangle -> has_tex m = true ->
+  (List.length (w_idx m) mod 3 = 0)%nat -> map fst fts = tris (w_idx m) -> Forall ftu_ok fts ->
+  Forall (group_good (w_n m)) gs -> readers_ok true gs ->
+  read_mesh {| pf_header := header_lines f (header_elems gs m);
+               pf_body := BodyBin (flat_map (fun i => flat_map (fun g => genc (enc_of f) g i) gs) (seq 0 (w_n m))
+                                   ++ flat_map (rec_tex (enc_of f)) fts) |}
+  = mesh_of TTriangle (zidx (w_idx m)) (flat_map (fun tu => pairs (map cvF (snd tu))) fts)
+            (update_mesh (layout true gs 0) 0 (map (vrow gs) (seq 0 (w_n m))) []).
+Proof.
+  intros Hf Ht Hx Hm Hfst Hi Hg Hr. unfold read_mesh. cbn [pf_header pf_body].
+  rewrite parse_header_written by apply header_elems_ok. cbn [rbind].
+  unfold read_body. cbn [h_elems h_fmt]. unfold header_elems. rewrite Ht.
+  cbn [find_last_elem e_name]. change (seqb "vertex" "vertex") with true. change (seqb "vertex" "face") with false.
+  change (seqb "face" "vertex") with false. change (seqb "face" "face") with true. cbv iota.
+  cbn [of_opt rbind e_props e_count]. rewrite all_scalar_props. cbn [negb].
+  replace (Z.of_nat (w_n m) <? 0)%Z with false by lia. cbv iota. rewrite !Nat2Z.id.
+  pose proof (read_vertices_bin_written (enc_of f) (w_n m) gs (w_n m) (flat_map (rec_tex (enc_of f)) fts) Hg (le_n _)) as R.
+  rewrite Nat.sub_diag, <- record_size_props in R.
+  destruct (tris_spec (List.length (w_idx m)) (w_idx m) (le_n _) Hm) as [Ef El].
+  assert (Ez : flat_map (fun tu => tri_z (fst tu)) fts = zidx (w_idx m)) by (rewrite flat_map_fst, Hfst, tri_z_flat, Ef; reflexivity).
+  assert (Eln : List.length fts = (List.length (w_idx m) / 3)%nat) by (rewrite <- El, <- Hfst, map_length; reflexivity).
+  unfold face_setup, face_props. rewrite Hx. cbn [e_props list_props rbind last_index].
+  change (is_indices (PList UChar Int "vertex_indices")) with true.
+  change (is_texcoord (PList UChar Int "vertex_indices")) with false.
+  change (is_indices (PList UChar Float "texcoord")) with false.
+  change (is_texcoord (PList UChar Float "texcoord")) with true. cbv iota. cbn [of_opt rbind].
+  unfold nprims. rewrite Ht, <- Eln.
+  pose proof (faces_bin_tex (enc_of f) fts [] fstate0 Hi shape0) as F. rewrite app_nil_r in F.
+  destruct f; [congruence| |]; cbn [enc_of] in R, F |- *; rewrite Hr; cbn [rbind]; rewrite R; cbn [rbind];
+    rewrite F; cbn [rbind]; rewrite Ez; reflexivity.
+Qed.
+
+Theorem read_mesh_triangles_ascii gs m : w_topo m = TTriangle -> has_tex m = false ->
+  (List.length (w_idx m) mod 3 = 0)%nat ->
+  Forall (group_good (w_n m)) gs -> forallb ascii_ok gs = true -> vertex_props gs <> [] -> readers_ok false gs ->
+  read_mesh {| pf_header := header_lines ASCII (header_elems gs m);
+               pf_body := BodyAscii (map (fun i => flat_map (fun g => gtoks g i) gs) (seq 0 (w_n m))
+                                     ++ map line_notex (tris (w_idx m))) |}
+  = Ok {| m_topo := TTriangle; m_idx := zidx (w_idx m);
+          m_attrs := update_mesh (layout false gs 0) 0 (map (vrow gs) (seq 0 (w_n m))) [] |}.
+Proof.
+  intros Ht Hx Hm Hg Ha Hne Hr. unfold read_mesh. cbn [pf_header pf_body].
+  rewrite parse_header_written by apply header_elems_ok. cbn [rbind].
+  unfold read_body. cbn [h_elems h_fmt]. unfold header_elems. rewrite Ht.
+  cbn [find_last_elem e_name]. change (seqb "vertex" "vertex") with true. change (seqb "vertex" "face") with false.
+  change (seqb "face" "vertex") with false. change (seqb "face" "face") with true. cbv iota.
+  cbn [of_opt rbind e_props e_count]. rewrite all_scalar_props. cbn [negb].
+  replace (Z.of_nat (w_n m) <? 0)%Z with false by lia. cbv iota. rewrite !Nat2Z.id.
+  pose proof (read_vertices_ascii_written (w_n m) gs (w_n m) (map line_notex (tris (w_idx m))) Hg Ha Hne (le_n _)) as R.
+  rewrite Nat.sub_diag in R.
+  destruct (tris_spec (List.length (w_idx m)) (w_idx m) (le_n _) Hm) as [Ef El].
+  assert (Ez : flat_map tri_z (tris (w_idx m)) = zidx (w_idx m)) by (rewrite tri_z_flat, Ef; reflexivity).
+  unfold face_setup, face_props. rewrite Hx. cbn [e_props list_props rbind last_index].
+  change (is_indices (PList UChar Int "vertex_indices")) with true.
+  change (is_texcoord (PList UChar Int "vertex_indices")) with false. cbv iota. cbn [of_opt rbind].
+  unfold nprims. rewrite Ht, <- El.
+  pose proof (faces_ascii_notex (tris (w_idx m)) [] fstate0 shape0) as F. rewrite app_nil_r in F.
+  rewrite Hr; cbn [rbind]; rewrite R; cbn [rbind]; rewrite F; cbn [rbind List.length Nat.eqb negb andb]; rewrite Ez; reflexivity.
+Qed.
+
+Theorem read_mesh_triangles_tex_ascii gs m fts : w_topo m = TTriangle -> has_tex m = true ->
+  (List.length (w_idx m) mod 3 = 0)%nat -> map fst fts = tris (w_idx m) -> Forall (fun tu => List.length (snd tu) = 6%nat) fts ->
+  Forall (group_good (w_n m)) gs -> forallb ascii_ok gs = true -> vertex_props gs <> [] -> readers_ok false gs ->
+  read_mesh {| pf_header := header_lines ASCII (header_elems gs m);
+               pf_body := BodyAscii (map (fun i => flat_map (fun g => gtoks g i) gs) (seq 0 (w_n m)) ++ map line_tex fts) |}
+  = mesh_of TTriangle (zidx (w_idx m)) (flat_map (fun tu => pairs (map cvF (snd tu))) fts)
+            (update_mesh (layout false gs 0) 0 (map (vrow gs) (seq 0 (w_n m))) []).
+Proof.
+  intros Ht Hx Hm Hfst Hi Hg Ha Hne Hr. unfold read_mesh. cbn [pf_header pf_body].
+  rewrite parse_header_written by apply header_elems_ok. cbn [rbind].
+  unfold read_body. cbn [h_elems h_fmt]. unfold header_elems. rewrite Ht.
+  cbn [find_last_elem e_name]. change (seqb "vertex" "vertex") with true. change (seqb "vertex" "face") with false.
+  change (seqb "face" "vertex") with false. change (seqb "face" "face") with true. cbv iota.
+  cbn [of_opt rbind e_props e_count]. rewrite all_scalar_props. cbn [negb].
+  replace (Z.of_nat (w_n m) <? 0)%Z with false by lia. cbv iota. rewrite !Nat2Z.id.
+  pose proof (read_vertices_ascii_written (w_n m) gs (w_n m) (map line_tex fts) Hg Ha Hne (le_n _)) as R.
+  rewrite Nat.sub_diag in R.
+  destruct (tris_spec (List.length (w_idx m)) (w_idx m) (le_n _) Hm) as [Ef El].
+  assert (Ez : flat_map (fun tu => tri_z (fst tu)) fts = zidx (w_idx m)) by (rewrite flat_map_fst, Hfst, tri_z_flat, Ef; reflexivity).
+  assert (Eln : List.length fts = (List.length (w_idx m) / 3)%nat) by (rewrite <- El, <- Hfst, map_length; reflexivity).
+  unfold face_setup, face_props. rewrite Hx. cbn [e_props list_props rbind last_index].
+  change (is_indices (PList UChar Int "vertex_indices")) with true.
+  change (is_texcoord (PList UChar Int "vertex_indices")) with false.
+  change (is_indices (PList UChar Float "texcoord")) with false.
+  change (is_texcoord (PList UChar Float "texcoord")) with true. cbv iota. cbn [of_opt rbind].
+  unfold nprims. rewrite Ht, <- Eln.
+  pose proof (faces_ascii_tex fts [] fstate0 Hi shape0) as F. rewrite app_nil_r in F.
+  rewrite Hr; cbn [rbind]; rewrite R; cbn [rbind]; rewrite F; cbn [rbind]; rewrite Ez; reflexivity.
+Qed.
+
+(* ---------- the attributes the readers leave in the mesh ---------- *)
+Definition gattr (g : rgroup) : attr := (List.length (rg_names g), rg_attr g, map (map (vl (rg_ty g))) (rg_rows g)).
+Definition gkey_eqb (g : rgroup) (a : attr) : bool := key_eqb (List.length (rg_names g)) (rg_attr g) a.
+Fixpoint keys_ok (seen gs : list rgroup) : bool :=
+  match gs with
+  | [] => true
+  | g :: r => forallb (fun g' => negb (gkey_eqb g (gattr g'))) seen && keys_ok (seen ++ [g]) r
+  end.
+
+Lemma filter_all {A} (f : A -> bool) l : forallb f l = true -> filter f l = l.
+Proof. induction l as [|x l IH]; [reflexivity|]. cbn [forallb filter]. intros H. apply andb_prop in H. destruct H as [-> H]. rewrite IH by exact H. reflexivity. Qed.
+
+Definition nogroup : rgroup := {| rg_attr := EmptyString; rg_names := []; rg_ty := Float; rg_rows := [] |}.
+
+Lemma column_vrow n gs0 j g : nth_error gs0 j = Some g -> List.length (rg_rows g) = n ->
+  column (map (vrow gs0) (seq 0 n)) j = map (map (vl (rg_ty g))) (rg_rows g).
+Proof.
+  intros E Hl. unfold column, vrow. rewrite map_map.
+  transitivity (map (map (vl (rg_ty g))) (map (fun i => nth i (rg_rows g) []) (seq 0 n))).
+  - rewrite map_map. apply map_ext. intros i.
+    rewrite (nth_error_nth _ _ _ (map_nth_error (fun g => map (vl (rg_ty g)) (rowi g i)) _ _ E)). reflexivity.
+  - rewrite <- Hl, map_nth_seq. reflexivity.
+Qed.
+
+Lemma update_mesh_layout bin n gs0 : (0 < n)%nat -> forall gs pre cur l,
+  gs0 = pre ++ gs -> Forall (fun g => List.length (rg_rows g) = n) gs -> keys_ok pre gs = true ->
+  (forall g, In g gs -> forallb (fun a => negb (gkey_eqb g a)) l = true) ->
+  update_mesh (layout bin gs cur) (List.length pre) (map (vrow gs0) (seq 0 n)) (l ++ map gattr pre) = l ++ map gattr pre ++ map gattr gs.
+Proof.
+  intros Hn. induction gs as [|g gs IH]; intros pre cur l E Hl Hk Hlk.
+  - cbn [layout update_mesh map]. rewrite app_nil_r. reflexivity.
+  - apply Forall_cons_iff in Hl. destruct Hl as [Hg Hl']. cbn [keys_ok] in Hk. apply andb_prop in Hk. destruct Hk as [Hk1 Hk2].
+    cbn [layout update_mesh b_offs b_attr].
+    assert (Eo : forall t k c, List.length (offs_from bin c t k) = k) by (intros t k; induction k; intros c; cbn [offs_from List.length]; [reflexivity|rewrite IHk; reflexivity]).
+    rewrite Eo. rewrite (column_vrow n gs0 (List.length pre) g) by (try assumption; rewrite E; apply nth_error_at).
+    unfold set_attr. rewrite filter_all.
+    2:{ rewrite forallb_app. apply andb_true_intro. split.
+        - apply (Hlk g (or_introl eq_refl)).
+        - rewrite forallb_forall in Hk1 |- *. intros a Ha. apply in_map_iff in Ha. destruct Ha as (g' & <- & Hg'). apply Hk1, Hg'. }
+    destruct (map (map (vl (rg_ty g))) (rg_rows g)) as [|r0 rs] eqn:Ed.
+    { exfalso. destruct (rg_rows g); [cbn in Hg; lia|discriminate]. }
+    rewrite <- Ed. fold (gattr g).
+    specialize (IH (pre ++ [g]) (if bin then (cur + List.length (rg_names g) * sty_size (rg_ty g))%nat else (cur + List.length (rg_names g))%nat) l).
+    rewrite app_length in IH. cbn [List.length] in IH. replace (List.length pre + 1)%nat with (S (List.length pre)) in IH by lia.
+    rewrite <- app_assoc in IH. cbn [app] in IH. rewrite map_app in IH. cbn [map] in IH.
+    rewrite <- app_assoc.
+    etransitivity.
+    { apply IH; try assumption. intros g' Hg'. apply Hlk. right. exact Hg'. }
+    rewrite <- !app_assoc. reflexivity.
+Qed.
+
+Theorem attrs_of_layout bin n gs : (0 < n)%nat -> Forall (fun g => List.length (rg_rows g) = n) gs -> keys_ok [] gs = true ->
+  update_mesh (layout bin gs 0) 0 (map (vrow gs) (seq 0 n)) [] = map gattr gs.
+Proof.
+  intros Hn Hl Hk. pose proof (update_mesh_layout bin n gs Hn gs [] 0%nat [] eq_refl Hl Hk (fun g _ => eq_refl)) as U.
+  exact U.
+Qed.
+
+(* ---------- which readers ply.ReadMesh builds on ply.Write's own table ---------- *)
+Definition shape_of (g : rgroup) := (rg_attr g, rg_names g, rg_ty g).
+Lemma shape_props gs gs' : map shape_of gs = map shape_of gs' -> vertex_props gs = vertex_props gs'.
+Proof.
+  revert gs'. induction gs as [|g gs IH]; intros [|g' gs'] H; try discriminate; [reflexivity|].
+  cbn [map] in H. unfold shape_of at 1 3 in H. injection H as Ha Hn Ht H. unfold vertex_props. cbn [flat_map]. fold (vertex_props gs) (vertex_props gs').
+  rewrite (IH gs' H). unfold group_props. rewrite Hn, Ht. reflexivity.
+Qed.
+Lemma shape_layout bin gs : forall gs' c, map shape_of gs = map shape_of gs' -> layout bin gs c = layout bin gs' c.
+Proof.
+  induction gs as [|g gs IH]; intros [|g' gs'] c H; try discriminate; [reflexivity|].
+  cbn [map] in H. unfold shape_of at 1 3 in H. injection H as Ha Hn Ht H.
+  cbn [layout]. rewrite Ha, Hn, Ht. rewrite (IH gs' _ H). reflexivity.
+Qed.
+Definition bare (w : pw) : rgroup := {| rg_attr := pw_attr w; rg_names := pw_names w; rg_ty := pw_ty w; rg_rows := [] |}.
+Lemma readers_ok_default_bare bin (f : pw -> bool) : readers_ok bin (map bare (filter f default_writers)).
+Proof.
+  unfold default_writers. cbn [filter].
+  destruct (f _), (f _), (f _), (f _), (f _), (f _), (f _), bin; vm_compute; reflexivity.
+Qed.
+Theorem readers_ok_default bin m (f : pw -> bool) : readers_ok bin (map (group_of m) (filter f default_writers)).
+Proof.
+  unfold readers_ok. pose proof (readers_ok_default_bare bin f) as B. unfold readers_ok in B.
+  assert (S : map shape_of (map (group_of m) (filter f default_writers)) = map shape_of (map bare (filter f default_writers)))
+    by (rewrite !map_map; reflexivity).
+  rewrite (shape_props _ _ S), (shape_layout bin _ _ 0%nat S). exact B.
+Qed.
